@@ -3,7 +3,7 @@
    `seesaw_grammar` is regenerated on every run from the runtime pyparsing element graph. *)
 From Coq Require Import List NArith.
 From DSD Require Import Base.Str Base.Errors Base.Val Model.Peg Model.DispatchPeg
-  Proofs.PegMono Proofs.PegStd Proofs.PegDoc Proofs.C13Base Proofs.C13Doc Proofs.C19Doc Proofs.C19Lex Proofs.C19Io Proofs.PegNum Proofs.C19Args Proofs.C19Stm Proofs.C19Rej Proofs.PegTerm Proofs.C13Fuel Proofs.PegCover Proofs.C13Cover.
+  Proofs.PegMono Proofs.PegStd Proofs.PegDoc Proofs.C13Base Proofs.C13Doc Proofs.C19Doc Proofs.C19Lex Proofs.C19Io Proofs.PegNum Proofs.C19Args Proofs.C19Stm Proofs.C19Rej Proofs.C19Ex Proofs.PegTerm Proofs.C13Fuel Proofs.PegCover Proofs.C13Cover.
 From DSDGen Require Import SeesawGrammar.
 Import ListNotations.
 
